@@ -61,7 +61,7 @@ def main():
     na = [{'property_id': p, 'reason': NA.get(p, NOT_REACHED)} for p in ids if p not in claimed]
     m = {'version': 1, 'setup_cmd': './check setup',
          'hooks': {'guard': 'cfg(kani)', 'enable': 'set only by cargo-kani (it passes --cfg kani); Verus needs no hooks', 'baseline_off_cmd': 'cd /repo && cargo test --workspace --no-fail-fast --offline',
-                   'source_commits': ['7d23ed0'], 'add_only': True},
+                   'source_commits': ['7d23ed0', '6e6e1e2'], 'add_only': True},
          'engines': [{'name': 'contracts', 'path': '/verif/check', 'serves_properties': claimed,
                       'kind_free_text': 'Verus contracts woven onto functions extracted from /repo each run; Kani for complete loop-free and bounded checks'}],
          'checks': checks, 'not_applicable': na, 'notes': 'exit 2 = undecided (tool limit / lost anchor), never an alarm'}
